@@ -371,3 +371,54 @@ def attr_name_unit(spec):
     return {'unit': 'regexlang.attr_name', 'function': 'tokenize.py::Name / parser.py::match_single_attribute',
             'obligations': [o], 'wall': time.time() - t0,
             'trusted': ['translation of patterns into SMT regular expressions']}
+
+
+# ---------------------------------------------------------------------------------------
+# C11 / C07 / C05: the statement patterns of tal.py dissect every well-formed clause into its parts,
+# also when the expression spans several lines ("multi-line ... sources")
+# ---------------------------------------------------------------------------------------
+_N = r'[a-zA-Z_][-a-zA-Z0-9_]*'
+_AN = r'[a-zA-Z_:][-a-zA-Z0-9_:.]*'
+_ANY = r'(?:.|\n)'
+STATEMENT_SPECS = {
+    'ATTR_RE': (r'\s*' + _AN + r'\s+[^\s]' + _ANY + r'*',
+                ['k e9', 'title t\n  u', 'k e9\n', 'class string:a\n b']),
+    'DEFINE_RE': (r'\s*(?:(?:global|local)\s+)?(?:' + _N + r'|\(' + _N + r'(?:,\s*' + _N + r')*\))\s+' + _ANY + '*',
+                  ['a e1', 'global a e1\n + 1', '(a, b) e1\n', 'a [x\n for x in y]']),
+    'SUBST_RE': (r'\s*(?:(?:text|structure)\s+)?' + _ANY + '*',
+                 ['e1', 'structure e1\n', 'text a\n + b']),
+}
+
+
+def statement_unit(spec):
+    import time
+    from .solve import solve_text
+    from .vc import real_module
+    t0 = time.time()
+    mod = real_module('tal.py')
+    obls = []
+    for name, (lang, samples) in STATEMENT_SPECS.items():
+        pat = getattr(mod, name)
+        o = {'name': 'tal.%s.accepts_multiline' % name, 'expect': 'valid', 'okind': 'struct', 'backend': 'regexlang',
+             'time': 0.0, 'tried': 'translate',
+             'text': 'tal.%s matches every well-formed clause of its statement, including clauses whose '
+                     'expression contains line breaks (language inclusion)' % name}
+        try:
+            q, _ = inclusion_query(translate(lang), translate(pat))
+            r = solve_text(q, False, t_z3=spec.get('t_z3', 40), t_cvc5=spec.get('t_cvc5', 40))
+            o.update(backend=r['backend'], time=round(r['time'], 3), tried=r['tried'],
+                     status={'unsat': 'discharged', 'sat': 'failed'}.get(r['verdict'], 'unknown'))
+        except Untranslatable as e:
+            o.update(status='unknown', reason=str(e))
+        if o['status'] == 'failed':
+            o['confirmed'] = False
+            for sm in samples:
+                if re.fullmatch(lang, sm) and pat.match(sm) is None:
+                    o['confirmed'] = True
+                    o['witness'] = {'inputs': {'clause': sm},
+                                    'detail': 'tal.%s does not match the clause %r' % (name, sm)}
+                    break
+        obls.append(o)
+    return {'unit': 'regexlang.statements', 'function': 'tal.py::ATTR_RE / DEFINE_RE / SUBST_RE',
+            'obligations': obls, 'wall': time.time() - t0,
+            'trusted': ['translation of patterns into SMT regular expressions']}
